@@ -508,7 +508,12 @@ func (m *sModel) plan(o sOp) (verdict int, apply func()) {
 		if val.Inst.Decl.Name != dst.Decl.Name {
 			return vReject, func() {}
 		}
-		if val.Inst.Decl != dst.Decl || m.ver[dst.Decl.Name] > 1 {
+		if val.Inst.Decl != dst.Decl {
+			// an instance keeps the definition in force when it was created: a value of another
+			// version of the same name would give it fields its definition does not declare
+			return vReject, func() {}
+		}
+		if m.ver[dst.Decl.Name] > 1 {
 			verdict = maxv(verdict, vEither)
 		}
 		return verdict, func() {
